@@ -25,7 +25,7 @@ DRIVER = 'Driver/C09.lean'
 REQUIRED_THEOREMS = ['CfVerif.C09.matcher_conditions', 'CfVerif.C09.matcher_groups', 'CfVerif.C09.matcher_partition', 'CfVerif.C09.group_contents',
                      'CfVerif.C09.linking_outcome', 'CfVerif.C09.linking_iff', 'CfVerif.C09.unlinked_rejected', 'CfVerif.C09.estimate_outcome', 'CfVerif.C09.estimate_exact_on_consistent_data',
                      'CfVerif.C09.layout_length', 'CfVerif.C09.bsmap_sorted', 'CfVerif.C09.sparsity_columns', 'CfVerif.C09.sparsity_rows',
-                     'CfVerif.C09.residual_row_reads', 'CfVerif.C09.sparsity_covers_dependencies',
+                     'CfVerif.C09.residual_row_reads', 'CfVerif.C09.sparsity_covers_dependencies', 'CfVerif.C09.condense_layout', 'CfVerif.C09.initial_guess_layout',
                      'CfVerif.C09.negated_rotvec_is_transpose', 'CfVerif.C09.zero_residual_at_truth',
                      'CfVerif.C09.ippe_rotations_proper', 'CfVerif.C09.ippe_axes', 'CfVerif.C09.ippe_vec_roundtrip', 'CfVerif.C09.ippe_mat_roundtrip']
 TRUSTED = ['harness/corr/c09.py extractor + correspondence (symbolic subclassing of the estimator, least_squares recorder)',
